@@ -544,12 +544,80 @@ pub use tb2::*;
 //@     }
 //@end
 
+//@fn src/translating/formula_representation/tau_star.rs :: fn tau_body
+//@ .ret r
+//@ .attr #[verifier::loop_isolation(false)]
+//@ .spec
+//@     ensures body_ok(r, b),
+//@ .loop 1 as it
+//@     invariant
+//@         it.seq().len() == b.formulas@.len(), forall|j: int| 0 <= j < b.formulas@.len() ==> *it.seq()[j] == b.formulas@[j],
+//@         formulas@.len() == it.index@,
+//@         forall|j: int| 0 <= j < it.index@ ==> taub_ok(#[trigger] formulas@[j], b.formulas@[j]),
+//@ .hint before "fol::Formula::conjoin(formulas)"
+//@     proof {
+//@         assert forall|f: Formula| f == spec_conjoin(formulas@) implies #[trigger] body_ok(f, b) by { lemma_body(formulas@, b, f); }
+//@     }
+//@end
+
+// T12. slice::sort permutes its argument (that the result is ordered is not needed here)
+pub assume_specification<T: Ord>[ <[T]>::sort ](s: &mut [T])
+    ensures final(s)@.to_multiset() == old(s)@.to_multiset();
+// T13. slice::to_vec copies the elements (Clone of the syntax-tree types is structural, D1)
+pub assume_specification<T: Clone>[ <[T]>::to_vec ](s: &[T]) -> (r: Vec<T>)
+    ensures r@ == s@;
+
+/// the quantifier prefix built so far: one general variable per variable of the rule met so far
+pub open spec fn prefix_inv(gv: Seq<Variable>, vs: Seq<asp::Variable>, n: int) -> bool {
+    gv.len() == n && forall|j: int| 0 <= j < n ==> (#[trigger] gv[j]).sort == Sort::General && gv[j].name@ == vs[j].0@
+}
+
+pub proof fn lemma_prefix_covers(gv: Seq<Variable>, vs: Seq<asp::Variable>, r: asp::Rule)
+    requires prefix_inv(gv, vs, vs.len() as int), forall|k: VKey| rule_in(r, k) ==> has_key(vs, k),
+    ensures gv_covers(gv, r), all_general(gv),
+{
+    assert forall|k: VKey| rule_in(r, k) implies #[trigger] bound_by(gv, k) by {
+        let j = choose|j: int| 0 <= j < vs.len() && #[trigger] asp_var_key(vs[j]) == k;
+        assert(gv[j].sort == Sort::General);
+        assert(vkey(gv[j]) == k);
+    }
+}
+
+//@fn src/translating/formula_representation/tau_star.rs :: fn tau_star_constraint_rule
+//@ .ret res
+//@ .attr #[verifier::loop_isolation(false)]
+//@ .spec
+//@     requires r.head is Falsity,
+//@     ensures rule_ok(res, *r),
+//@ .loop 1 as it
+//@     invariant
+//@         it.seq().len() == d17_t0@.len(), forall|j: int| 0 <= j < d17_t0@.len() ==> *it.seq()[j] == d17_t0@[j],
+//@         prefix_inv(gvars@, d17_t0@, it.index@ as int),
+//@ .endloop 1
+//@     proof { lemma_prefix_covers(gvars@, d17_t0@, *r); }
+//@ .hint before "gvars.sort();"
+//@     let ghost gv0 = gvars@;
+//@     let ghost e = Seq::<String>::empty();
+//@     proof {
+//@         let core = imp_lhs(imp);
+//@         lemma_core_prop(*r, core);
+//@         lemma_imp_sem(*r, e, core, imp);
+//@     }
+//@ .hint after "gvars.sort();"
+//@     proof {
+//@         lemma_perm_prefix(gv0, gvars@);
+//@         assert forall|k: VKey| !bound_by(zvars(e), k) by { lemma_zvars_bound(e, k); }
+//@         assert(rule_side(*r, gvars@, e));
+//@         assert forall|f: Formula| closure_shape(f, gvars@, imp) implies #[trigger] rule_ok(f, *r) by { lemma_rule_closed(*r, f, gvars@, e, imp); }
+//@     }
+//@end
+
 } // verus!
 pub mod asp {
     use vstd::prelude::*;
     use vstd::std_specs::iter::IteratorSpec;
     use super::{IndexSet, seq_extend, seq_insert, lemma_seq_extend_contains, VKey, asp_in_term, asp_var_key, has_key, terms_in, af_in,
-        lemma_has_key_extend, lemma_has_key_contains};
+        lemma_has_key_extend, lemma_has_key_contains, head_pred, head_terms, head_in, body_in, rule_in};
     verus! {
     broadcast use {super::axiom_string_ext, super::axiom_vec_ext};
 //@include units/asp_types.inc
@@ -609,6 +677,61 @@ impl AtomicFormula {
 //@ .ret r
 //@ .spec
 //@     ensures forall|k: VKey| af_in(*self, k) ==> has_key(r@, k),
+//@end
+}
+impl Atom {
+//@fn src/syntax_tree/asp/mini_gringo.rs :: impl Atom :: fn predicate
+//@ .ret r
+//@ .spec
+//@     ensures r.symbol@ == self.predicate_symbol@, r.arity == self.terms@.len(),
+//@end
+}
+impl Head {
+//@fn src/syntax_tree/asp/mini_gringo.rs :: impl Head :: fn predicate
+//@ .ret r
+//@ .spec
+//@     ensures r is Some == !(self is Falsity), r is Some ==> r->Some_0.symbol@ == head_pred(*self) && r->Some_0.arity == head_terms(*self).len(),
+//@end
+//@fn src/syntax_tree/asp/mini_gringo.rs :: impl Head :: fn terms
+//@ .ret r
+//@ .spec
+//@     ensures r is Some == !(self is Falsity), r is Some ==> r->Some_0@ == head_terms(*self),
+//@end
+//@fn src/syntax_tree/asp/mini_gringo.rs :: impl Head :: fn arity
+//@ .ret r
+//@ .spec
+//@     ensures r == head_terms(*self).len(),
+//@end
+//@fn src/syntax_tree/asp/mini_gringo.rs :: impl Head :: fn variables
+//@ .ret r
+//@ .spec
+//@     ensures forall|k: VKey| head_in(*self, k) ==> has_key(r@, k),
+//@end
+}
+impl Body {
+//@fn src/syntax_tree/asp/mini_gringo.rs :: impl Body :: fn variables
+//@ .ret r
+//@ .spec
+//@     ensures forall|k: VKey| body_in(self.formulas@, k) ==> has_key(r@, k),
+//@ .loop 1 as it
+//@     invariant
+//@         0 <= it.index@ <= self.formulas@.len(),
+//@         forall|j: int, k: VKey| 0 <= j < it.index@ && #[trigger] af_in(self.formulas@[j], k) ==> has_key(vars@, k),
+//@ .hint before "vars.extend(formula.variables())"
+//@     proof {
+//@         assert forall|a: Seq<Variable>, b: Seq<Variable>, k: VKey| has_key(a, k) || has_key(b, k) implies #[trigger] has_key(seq_extend(a, b), k) by { lemma_has_key_extend(a, b, k); }
+//@     }
+//@end
+}
+impl Rule {
+//@fn src/syntax_tree/asp/mini_gringo.rs :: impl Rule :: fn variables
+//@ .ret r
+//@ .spec
+//@     ensures forall|k: VKey| rule_in(*self, k) ==> has_key(r@, k),
+//@ .hint before "let mut vars = self.head.variables();"
+//@     proof {
+//@         assert forall|a: Seq<Variable>, b: Seq<Variable>, k: VKey| has_key(a, k) || has_key(b, k) implies #[trigger] has_key(seq_extend(a, b), k) by { lemma_has_key_extend(a, b, k); }
+//@     }
 //@end
 }
     } // verus!
